@@ -85,6 +85,36 @@ ELIF_TS = '''function route(kind: string, items: number[][]): number[][] {
   return items;
 }
 '''
+DECOR_PY = '''import functools
+
+
+@functools.wraps(print)
+@functools.lru_cache(maxsize=None)
+def walk(kind, items):
+    for item in items:
+        if kind:
+            for sub in item:
+                if sub:
+                    while sub.busy():
+                        with sub.lock():
+                            sub.step()
+    return items
+
+
+class Holder:
+    @staticmethod
+    def sink(kind, items):
+        for item in items:
+            if kind:
+                for sub in item:
+                    try:
+                        sub.run()
+                    except ValueError:
+                        if sub:
+                            with sub.lock():
+                                sub.stop()
+        return items
+'''
 MAIN_PY = '''import sys
 
 
@@ -123,6 +153,9 @@ BASES = [(b, C04.CONFIG) for b in C04.BASES] + [
     # if / elif / else chains and try / except / finally with branches exactly on and one above the nesting limit
     (("nesting", "nesting", "py", {"main.py": ELIF_PY}), C04.CONFIG),
     (("nesting", "nesting", "ts", {"main.ts": ELIF_TS}), C04.CONFIG),
+    # the same functions below two decorators: a blank or comment line may stand between a decorator and its `def`
+    # (the sweep inserts one at every boundary), the finding stays on the line it was on
+    (("nesting", "nesting", "py", {"main.py": DECOR_PY}), C04.CONFIG),
     # a script whose last statement is the `__main__` block (prints inside it are exempt, the one outside is not)
     (("improper-logging", "print-statements", "py", {"main.py": MAIN_PY}), C04.CONFIG),
     # TypeScript command-query separation: a fluent method (ends in `return this;`, exempt) next to a mixed one
